@@ -14,6 +14,12 @@ CHECKS = {
         text="Every fixture model, generated models (incl. shapes the statement names: no concrete class, empty classes, lists of lists/primitives, zero-admitting and crossing length bounds, mid-pattern anchors) and lightly mutated accepted models are run through all eight generators and the smoke tool in-process with complete snippet directories; any escaping exception, a non-int return, exit 0 without output or non-zero exit with empty stderr is a violation.",
         note="The pinned tree crashes at ~28 generator sites (unimplemented cases); they are listed one by one in known_findings.json by mechanism, any other site is reported.",
     ),
+    "C03": dict(
+        category="exploration",
+        technique="exit-status/stdout/stderr contract monitor around the real main.execute and CLI subprocesses, report-grammar parser, wrapper on run.write_error_report, injected-vs-reported error conservation",
+        text="Hundreds (quick) to thousands (thorough) of in-process runs over fixtures, generated, mutated and conservation models (k independent defects of one kind in k classes) across all eight targets plus real CLI runs for argument errors and both CLI forms; rc==0 iff stderr empty, success line, report grammar, helper-rendered reports reach stderr verbatim, every injected defect is named in the report.",
+        note="One-line argument-error messages are accepted; crashes are left to C01/C02; conservation covers the seven defect kinds for which the pinned front end collects errors.",
+    ),
     "C05": dict(
         category="exploration",
         technique="walk of the real symbol table vs independent ast-only reference of the class DAG (differential monitor)",
@@ -55,6 +61,30 @@ CHECKS = {
         technique="differential monitor: generated constants/enums/stringification vs values Python computes from the source",
         text="Every constant, constant set (incl. superset_of chains, sets of enum literals) and enumeration of generated models is compared with the value obtained by executing the meta-model source with shim markers; <enum>_from_str is probed on literal values and neighbouring texts.",
         note="constant_bytearray cannot be written in the accepted subset (ast.Constant never holds a bytearray) and is therefore not exercised.",
+    ),
+    "C16": dict(
+        category="exploration",
+        technique="seeded grammar-aware regex fuzzer against the real retree.parse/render; differential oracle Python re (original vs rendering on strings from both languages, one-edit neighbours, all range boundaries) plus parse(render) dump equality and error-position check",
+        text="About 1.2-8k patterns x 40 strings (quick), 20-35k in the thorough budget (240k cap), 8 forked workers; subset walk, near-miss spellings, text mutants of corpus patterns, hostile soups, f-string splices at arbitrary cuts; mechanisms named by crash site, by Python's own parse-tree difference, or by an explain-away test.",
+        note="Python 3.12 re is the reference; semantics judged only when Python accepts the original; finite sampling.",
+    ),
+    "C17": dict(
+        category="exploration",
+        technique="monitor on the real jsonschema.main.fix_pattern_for_utf16; original on the string vs rewriting on UTF-16 code units (Python re x3 semantics, node RegExp without u for a batched sample); systematic enumeration of edge code points plus astral-rich fuzzing",
+        text="About 0.8-2.4k rewrites x 60 strings (quick), 34k x 120 (thorough); 17 edge code points x 3 shapes enumerated systematically; delta-minimised naming of non-limitation disagreements.",
+        note="Well-formed subject strings only; '.', complemented sets and lone surrogates on astral strings are a documented limitation listed in known_findings.json; node leg excludes strings with line terminators.",
+    ),
+    "C22": dict(
+        category="exploration",
+        technique="differential repeated real CLI subprocess runs vs a reference under varied PYTHONHASHSEED, output-directory history, snippet creation order, shuffled directory listings (sitecustomize shim) and cold/warm model cache",
+        text="Quick about 20 (model, target) groups x 4 variants, thorough v3 x 8 targets plus 64 small and about 66 corpus groups; exit status, stdout and stderr modulo paths and every output byte are compared with the reference run.",
+        note="Addresses masked only inside tracebacks; foreign files may remain in a pre-populated output directory; heavy machine load gives inconclusive, never held.",
+    ),
+    "C25": dict(
+        category="exploration",
+        technique="post-call monitor on the real specific_implementations.read_from_directory (direct and inside main.execute) vs an independent os.walk expectation on generated directory trees",
+        text="About 6k (quick) to 60k (thorough) trees with nesting 0-4, valid, invalid and hidden names, hidden directories, symlinks, and empty, blank, CRLF, BOM, NUL, large and invalid-UTF-8 contents; the mapping must equal the walk, each offending file must be named in an error, no exception may escape, and main.execute must exit 1 with a report.",
+        note="Accepts verbatim or universal-newline text; key validity from the documented format; symlinks to regular files count as files.",
     ),
     "C26": dict(
         category="exploration",
